@@ -3,3 +3,5 @@ pub mod c05;
 pub mod c07;
 pub mod c13;
 pub mod c03;
+pub mod c04;
+pub mod iters;
